@@ -57,10 +57,12 @@ func ParsePlanSummary(planSummary string) []string {
 
 // HashName returns a consistent hash for a field name.
 func HashName(field string) string {
-	trimmed := strings.TrimLeft(field, "$")
-	parts := strings.Split(trimmed, ".")
+	parts := strings.Split(field, ".")
 	hashedParts := make([]string, len(parts))
 	for i, part := range parts {
+		// a leading '$' does not belong to the name, wherever the component stands: "$cmd" gets the
+		// same pseudonym in "db.$cmd" as in "$cmd.aggregate"
+		part = strings.TrimLeft(part, "$")
 		h := sha256.Sum256([]byte(part))
 		hashed := fmt.Sprintf("%s_%x", redactedString, h[:8])
 		RedactedFieldMapping[part] = hashed
